@@ -10,6 +10,8 @@ for f in k["fixed"]:
         f["commit"] = by_subject[f["what"]]
     elif not any(l.startswith(f["commit"]) for l in log):
         missing.append(f)
+for f in k["fixed"]:
+    f["line"] = f"fixed: property={f['property']} {f['commit']} {f['what']}"
 listed = {f["what"] for f in k["fixed"]}
 unlisted = [s for s in by_subject if s not in listed and by_subject[s] not in {f["commit"] for f in k["fixed"]}]
 json.dump(k, open('/verif/known_findings.json', 'w'), indent=1, ensure_ascii=False)
